@@ -159,7 +159,7 @@ Alloc(kind, content, heap) ==
 \* numeric index of a validated non-negative integral number (huge -> beyond any length)
 Ix(v) == IF v.f = "q" THEN v.n ELSE Bound + 1
 SetCell(heap, r, content) == [heap EXCEPT ![r].v = content]
-Remove(s, i) == SubSeq(s, 1, i - 1) \o SubSeq(s, i + 1, Len(s))
+RemoveAt(s, i) == SubSeq(s, 1, i - 1) \o SubSeq(s, i + 1, Len(s))
 
 PairIndex(ps, key) == IF \E i \in 1..Len(ps) : ps[i].key = key
                       THEN CHOOSE i \in 1..Len(ps) : ps[i].key = key ELSE 0
@@ -208,13 +208,13 @@ RFind(s, sub, end) ==
 RECURSIVE RepeatSeq(_, _)
 RepeatSeq(s, k) == IF k <= 0 THEN <<>> ELSE s \o RepeatSeq(s, k - 1)
 \* str.replace(old, new): left to right, non overlapping; empty old inserts new around every character
-RECURSIVE ReplaceAll(_, _, _)
-ReplaceAll(s, old, new) ==
+RECURSIVE StrReplaceAll(_, _, _)
+StrReplaceAll(s, old, new) ==
     IF old = <<>> THEN
-        IF s = <<>> THEN new ELSE new \o <<Head(s)>> \o ReplaceAll(Tail(s), old, new)
+        IF s = <<>> THEN new ELSE new \o <<Head(s)>> \o StrReplaceAll(Tail(s), old, new)
     ELSE IF Len(s) < Len(old) THEN s
-    ELSE IF IsPrefixAt(s, old, 1) THEN new \o ReplaceAll(SubSeq(s, Len(old) + 1, Len(s)), old, new)
-    ELSE <<Head(s)>> \o ReplaceAll(Tail(s), old, new)
+    ELSE IF IsPrefixAt(s, old, 1) THEN new \o StrReplaceAll(SubSeq(s, Len(old) + 1, Len(s)), old, new)
+    ELSE <<Head(s)>> \o StrReplaceAll(Tail(s), old, new)
 \* str.split(sep) for a non-empty separator: sequence of pieces
 RECURSIVE SplitBy(_, _, _)
 SplitBy(s, sep, cur) ==
@@ -270,7 +270,7 @@ LibPureOK(name, a, heap, off) ==     \* a = validated arguments
     CASE name = "arrayCopy" -> LET r == Alloc("array", heap[a[1].r].v, heap) IN R(r.v, r.heap)
       [] name = "arrayDelete" ->
             IF Ix(a[2]) >= Len(heap[a[1].r].v) THEN RF(Null, heap)
-            ELSE R(AnyVal, SetCell(heap, a[1].r, Remove(heap[a[1].r].v, Ix(a[2]) + 1)))
+            ELSE R(AnyVal, SetCell(heap, a[1].r, RemoveAt(heap[a[1].r].v, Ix(a[2]) + 1)))
       [] name = "arrayExtend" -> R(a[1], SetCell(heap, a[1].r, heap[a[1].r].v \o heap[a[2].r].v))
       [] name = "arrayGet" ->
             IF Ix(a[2]) >= Len(heap[a[1].r].v) THEN RF(Null, heap) ELSE R(heap[a[1].r].v[Ix(a[2]) + 1], heap)
@@ -307,7 +307,7 @@ LibPureOK(name, a, heap, off) ==     \* a = validated arguments
       [] name = "objectCopy" -> LET r == Alloc("object", heap[a[1].r].v, heap) IN R(r.v, r.heap)
       [] name = "objectDelete" ->
             LET i == PairIndex(heap[a[1].r].v, a[2].v) IN
-            R(Null, IF i = 0 THEN heap ELSE SetCell(heap, a[1].r, Remove(heap[a[1].r].v, i)))
+            R(Null, IF i = 0 THEN heap ELSE SetCell(heap, a[1].r, RemoveAt(heap[a[1].r].v, i)))
       [] name = "objectGet" ->
             LET i == PairIndex(heap[a[1].r].v, a[2].v) IN R(IF i = 0 THEN a[3] ELSE heap[a[1].r].v[i].val, heap)
       [] name = "objectHas" -> R(Bool(PairIndex(heap[a[1].r].v, a[2].v) # 0), heap)
@@ -329,7 +329,7 @@ LibPureOK(name, a, heap, off) ==     \* a = validated arguments
       [] name = "stringNew" -> LET t == ToText(a[1], heap, off) IN IF t.ok THEN R(Str(t.s), heap) ELSE SkipR(heap)
       [] name = "stringRepeat" ->
             IF Ix(a[2]) * Len(a[1].v) > 100000 THEN SkipR(heap) ELSE R(Str(RepeatSeq(a[1].v, Ix(a[2]))), heap)
-      [] name = "stringReplace" -> R(Str(ReplaceAll(a[1].v, a[2].v, a[3].v)), heap)
+      [] name = "stringReplace" -> R(Str(StrReplaceAll(a[1].v, a[2].v, a[3].v)), heap)
       [] name = "stringSlice" ->
             LET s == a[1].v
                 en == IF a[3].t = "null" THEN Len(s) ELSE Ix(a[3]) IN
